@@ -219,6 +219,9 @@ structure SSt where
   file : String := "t.c"
   /-- some invocation took its arguments from beyond the end of the replacement list it started in (6.10.3.4p4) -/
   crossed : Bool := false
+  /-- some invocation of a macro using `__VA_OPT__` had a variable argument with tokens that all disappear under
+      macro replacement (`#define EMP` / `F(EMP)`): present for chibicc's test, absent for C2x -/
+  vaoptGap : Bool := false
 
 /-- 6.10p2 / 6.10.3p9-10: a directive is the `#` and the tokens up to the end of that line; `# define name
     replacement-list` is object-like, `# define name( params ) replacement-list` (no white space before the `(`)
@@ -356,6 +359,8 @@ def rescan (lx : String → LexOne) : Nat → SSt → List String → List RItem
                 let vaP := match vaName with
                   | some v => !((tbl.lookup v).getD []).isEmpty
                   | none => false
+                let st' := { st' with vaoptGap := st'.vaoptGap ||
+                  (usesVaOpt && !vaP && args.any (fun a => a.isVa && !a.toks.isEmpty)) }
                 match substPhases lx true args vaP (fun a => (tbl.lookup a).getD []) (body.length + 1) body with
                 | .error e => .error e
                 | .ok body' =>
@@ -364,9 +369,9 @@ def rescan (lx : String → LexOne) : Nat → SSt → List String → List RItem
                       ++ .endOf t.text :: rest')
 
 /-- **`Spec.expand`** on a whole file (token list with `#define`/`#undef` lines), from the table of `init_macros` -/
-def expandFileX (fuel : Nat) (ts : List Tok) : Except Err (List Tok × Bool) :=
+def expandFileX (fuel : Nat) (ts : List Tok) : Except Err (List Tok × Bool × Bool) :=
   (rescan Lex.lexOne fuel { defs := initDefs, counter := ChibiVerif.Gen.PP.counterStart } [] (ts.map .tok)).map
-    fun (out, st) => (out, st.crossed)
+    fun (out, st) => (out, st.crossed, st.vaoptGap)
 
 def expandFile (fuel : Nat) (ts : List Tok) : Except Err (List Tok) := (expandFileX fuel ts).map (·.1)
 
